@@ -250,6 +250,7 @@ def run(tier, seed):
     res.rule = ("every TLC-enumerated DAG shape (<=4 nodes; thorough <=5) and cyclic shape (<=4 nodes, <=6 edges) x edge/node "
                 "cover, ignore sets, starts/ends, constraints; the Cover adversary decides minimality, 'kPathCover(k) solved "
                 "iff k >= optimum' and 'get_width = optimum' (two reachability questions per width value)")
+    P.attribute_presolve(res, known)
     return res.finish(known, require_classes=["solved", "node_cover", "cyclic", "with_ignored", "with_starts_ends", "width_queries"])
 
 
